@@ -71,11 +71,12 @@ class Ctx:
         except BaseException as e:      # a source the translator cannot read breaks the proof obligation, not the run
             self.notes["translator_error"] = repr(e)
         ok, log = coqrun.ensure_built()
-        if not ok:
-            self.proof = dict(ok=False, theorems=[], closed=0, prints=0, axioms=[], forbidden=[], log=log,
-                              cmd="make -C coq", build_failed=True)
-            return self.proof
+        # the verdict is that of THIS property's theorem file, compiled against what did build: a file elsewhere in the
+        # development that no longer compiles breaks only the properties whose theorems depend on it
         self.proof = coqrun.check_props(self.cid)
+        if not ok:
+            self.proof["build_log"] = log[-1500:]
+            self.proof["build_failed_somewhere"] = True
         if self.thorough and self.proof.get("ok"):
             chk = coqrun.coqchk(self.cid)
             self.notes["coqchk"] = {k: v for k, v in chk.items() if k != "tail" or not chk["ok"]}
